@@ -33,6 +33,37 @@ func vhBuildLong(ctx int, s []byte) vhCtx {
 			vbFixedSym(tail, 'x')
 		}
 		vbFixedSym(tail, 256)
+	case 4:
+		// hand-over at the end of the output window: the block has produced
+		// 65536-274-K bytes (just below the point where the assembly loop stops
+		// being entered), the window holds the symbols that cross it, and only
+		// TAIL literal bytes follow, so the assembly loop runs out of input right
+		// after the crossing symbol and hands over to the Go loop.
+		w.bits(1, 1)
+		w.bits(1, 2)
+		vbFixedSym(w, 'a')
+		produced := 1
+		target := 2*historySize - outBufferSlop - verifrt.Param("K")
+		for produced < target {
+			n := target - produced
+			if n > 258 {
+				n = 258
+			}
+			if n < 3 {
+				for ; n > 0; n-- {
+					vbFixedSym(w, 'a')
+					produced++
+				}
+				break
+			}
+			vbFixedMatch(w, n, 1)
+			produced += n
+		}
+		c.preOut = produced
+		for i := 0; i < verifrt.Param("TAIL"); i++ {
+			vbFixedSym(tail, 'x')
+		}
+		vbFixedSym(tail, 256)
 	case 2, 3:
 		t := 2
 		if ctx == 3 {
@@ -62,7 +93,7 @@ func vhBuildLong(ctx int, s []byte) vhCtx {
 // level 0 (Go loop) and level 3 (decode_amd64.go dispatch + decodeHuffmanAsmArchV3
 // executed from the current decode_amd64.s).
 func VerifAsmDiff() {
-	ctx := verifrt.Pick("ctx", 4)
+	ctx := verifrt.Pick("ctx", 5)
 	n := verifrt.Param("N")
 	M := verifrt.Param("M")
 	s := verifrt.Bytes(n)
